@@ -665,6 +665,18 @@ func (fc *FC) cellAtEntry(c cellKey, cellType types.Type, b *ssa.BasicBlock) *RF
 		case 1:
 			r = fc.cellAtExit(c, cellType, preds[0])
 		default:
+			// all predecessors agree?
+			first := fc.cellAtExit(c, cellType, preds[0])
+			same := true
+			for _, p := range preds[1:] {
+				if !fc.cellAtExit(c, cellType, p).Equal(first) {
+					same = false
+				}
+			}
+			if same {
+				r = first
+				break
+			}
 			if isHeader {
 				r = fc.memphi(c, cellType, b) // several entries into a loop: not gated
 				break
